@@ -709,6 +709,100 @@ def check_create_wrapper():
     return None
 
 
+# a library processed earlier in the same process (a setup.py that builds two extension modules calls create_wrapper twice);
+# each call must still equal its own command-line run.  The earlier library uses the documented `typemap:` section to
+# change a predefined type, or is the library itself.
+HISTORY_PREV = {
+    "none": None,
+    "typemap-c": """
+library: first
+language: c
+options:
+  wrap_python: false
+  wrap_lua: false
+typemap:
+- type: int
+  fields:
+    f_type: integer(C_INT32_T)
+    f_kind: C_INT32_T
+    f_module:
+      iso_c_binding: [C_INT32_T]
+declarations:
+- decl: int First(int arg)
+""",
+    "same": None,   # filled below
+}
+HISTORY_LIB = """
+library: second
+language: c
+options:
+  wrap_python: false
+  wrap_lua: false
+declarations:
+- decl: int Second(int arg)
+- decl: double Third(const double *v +rank(1), int n +implied(size(v)))
+"""
+HISTORY_PREV["same"] = HISTORY_LIB
+
+
+def check_create_wrapper_history(only=None):
+    """create_wrapper(file, outdir) called after another create_wrapper call of the same process must equal the command
+    line (a fresh process: `python -m shroud.main`) on the same file."""
+    import re
+    import subprocess
+    import sys
+    from shroud import main as smain
+    import shroud.util as U
+    strip = lambda t: re.sub(r"(?m)^(.{1,3}) This file is generated by Shroud [^\n]*\n", "", t)
+
+    def read_dir(d):
+        out = {}
+        for f in sorted(os.listdir(d)):
+            if f.endswith((".json", ".log")):
+                continue
+            with open(os.path.join(d, f)) as fh:
+                out[f] = strip(fh.read())
+        return out
+    tmp = tempfile.mkdtemp(prefix="c14h_")
+    cwd = os.getcwd()
+    try:
+        os.chdir(tmp)
+        with open("second.yaml", "w") as f:
+            f.write(HISTORY_LIB)
+        os.mkdir("cmd")
+        env = dict(os.environ, PYTHONPATH=os.pathsep.join(p for p in sys.path if p))
+        r = subprocess.run([sys.executable, "-c", "import sys, shroud.main; sys.argv = ['shroud'] + sys.argv[1:]; shroud.main.main()",
+                            "--outdir", "cmd", "second.yaml"], env=env, stdout=subprocess.PIPE, stderr=subprocess.STDOUT, timeout=120)
+        if r.returncode != 0:
+            return "command-line run failed: %s" % r.stdout.decode()[-200:]
+        ref = read_dir("cmd")
+        U.print = lambda *a, **k: None
+        try:
+            for name in sorted(HISTORY_PREV):
+                if only and name != only:
+                    continue
+                prev = HISTORY_PREV[name]
+                if prev is not None:
+                    with open("prev.yaml", "w") as f:
+                        f.write(prev)
+                    os.mkdir("p_" + name)
+                    smain.create_wrapper("prev.yaml", outdir="p_" + name)
+                os.mkdir("o_" + name)
+                smain.create_wrapper("second.yaml", outdir="o_" + name)
+                got = read_dir("o_" + name)
+                if got != ref:
+                    bad = sorted(f for f in set(got) | set(ref) if got.get(f) != ref.get(f))
+                    return "create_wrapper after an earlier create_wrapper call (history %r) differs from the command line's output: files %r" % (name, bad[:5])
+        finally:
+            del U.print
+    except Exception as ex:
+        return "create_wrapper history kernel fails: %s: %s" % (type(ex).__name__, str(ex)[:200])
+    finally:
+        os.chdir(cwd)
+        shutil.rmtree(tmp, ignore_errors=True)
+    return None
+
+
 # ---------------------------------------------------------------------------- main
 def make_scope(**kw):
     return ScopeHarness(**kw)
@@ -832,6 +926,8 @@ def confirm(w):
         return confirm_placement(w)
     if k == "create_wrapper":
         return check_create_wrapper()
+    if k == "create_wrapper_history":
+        return check_create_wrapper_history()
     return None
 
 
@@ -881,6 +977,9 @@ def main():
     cw = check_create_wrapper()
     if cw:
         viol.append({"kernel": "create_wrapper", "what": cw, "_vkey": "create_wrapper"})
+    ch = check_create_wrapper_history()
+    if ch:
+        viol.append({"kernel": "create_wrapper_history", "what": ch, "_vkey": "create_wrapper_history"})
     known = [k for k in checklib.load_known(PID) if k.get("status") == "known"]
     seen, confirmed, printed = set(), 0, set()
     for i, v in enumerate(viol):
